@@ -509,6 +509,81 @@ pub fn d10(residue: usize) -> bool {
     get(1) == 1
 }
 
+// ---------------------------------------------------------------------------------------------
+// d13: explicit flushes inside one long critical section while a staggered backlog of long chains
+// becomes due. Nothing may be reclaimed under the guard, however often it flushes.
+
+pub fn d13(residue: usize, chain: usize) -> bool {
+    reset(residue, 0);
+    let (x, xid) = new_node(3);
+    let sh = Arc::new(Sh { roots: vec![AtomicRc::null()], wroots: vec![] });
+    {
+        let g = circ::cs();
+        sh.roots[0].store(x, SeqCst, &g);
+    }
+    // staggered backlog: chain k is retired in epoch e+k
+    for _ in 0..3 {
+        let head = {
+            let g = circ::cs();
+            let mut head: Rc<VNode> = Rc::null();
+            for _ in 0..chain {
+                let (n, _) = new_node(3);
+                n.as_ref().unwrap().next[0].store(head, SeqCst, &g);
+                head = n;
+            }
+            head
+        };
+        drop(head);
+        churn(1);
+    }
+    let s0 = sh.clone();
+    let b0: Box<dyn FnOnce() + Send> = Box::new(move || {
+        let g = circ::cs();
+        let a0 = verif::local_state(&g).map_or(0, |s| s.announced);
+        let s = s0.roots[0].load(SeqCst, &g);
+        if !s.is_null() {
+            l_snap(xid, 0, 1);
+        }
+        mon::oplog(0, format!("g = cs() at epoch {}; s = root0.load()", a0));
+        set(1, 1);
+        wait(2, 1);
+        for round in 0..8 {
+            g.flush();
+            let a = verif::local_state(&g).map_or(0, |s| s.announced);
+            if std::env::var("D13_DEBUG").is_ok() {
+                eprintln!("round {} announced {} (a0 {}) global {} pending {}", round, a, a0, verif::global_epoch(), mon::RC_PENDING.load(SeqCst));
+            }
+            mon::eval("guard-model");
+            if a != a0 {
+                mon::observer_violation(
+                    "C16",
+                    "C16|announced-epoch-moved-under-live-guard",
+                    format!("scenario d13: after flush #{} under a live guard the participant announces {} instead of {}", round + 1, a, a0),
+                );
+            }
+            if let Some(n) = s.as_ref() {
+                n.check_live(Some(xid), "C02", "load");
+            }
+        }
+        if !s.is_null() {
+            l_snap(xid, 0, -1);
+        }
+        drop(g);
+        set(9, 1);
+    });
+    let s1 = sh.clone();
+    let b1: Box<dyn FnOnce() + Send> = Box::new(move || {
+        wait(1, 1);
+        let old = s1.roots[0].swap(Rc::null(), SeqCst);
+        drop(old);
+        mon::oplog(1, "old = root0.swap(null); drop(old); thread exits (its bag is handed over without a collection)".into());
+        set(2, 1);
+    });
+    let _ = run("d13", J::obj().set("scenario", "d13").set("residue", residue).set("chain", chain), vec![], vec![b0, b1]);
+    finish(&sh);
+    get(9) == 1
+}
+
 pub struct ScenOut {
     pub execs: u64,
     pub materialised: u64,
@@ -573,6 +648,13 @@ pub fn run_all(which: &str, shard: u64, nshards: u64, thorough: bool) -> ScenOut
             }
             for chain in if thorough { vec![700usize, 1000] } else { vec![1000] } {
                 one("d7", vec![r, chain], &|| d7(r, chain), &mut out);
+            }
+        }
+    }
+    if which == "d13" {
+        for &r in &[0usize, 3, 7, 12, 15] {
+            for chain in [200usize, 400] {
+                one("d13", vec![r, chain], &|| d13(r, chain), &mut out);
             }
         }
     }
